@@ -425,6 +425,15 @@ func (g *gen) pickRef(t *Type, env []envEntry, exactOnly bool) *envEntry {
 		return nil
 	}
 	// Prefer refs from calls and (by PProject) projections.
+	var fromCalls []int
+	for _, k := range cands {
+		if env[k].fromCall != "" {
+			fromCalls = append(fromCalls, k)
+		}
+	}
+	if len(fromCalls) > 0 && g.pct(80) {
+		cands = fromCalls
+	}
 	i := cands[g.r.Intn(len(cands))]
 	if len(env[i].exp.Path) > 1 && !g.pct(g.cfg.PProject) {
 		i = cands[g.r.Intn(len(cands))]
@@ -434,7 +443,7 @@ func (g *gen) pickRef(t *Type, env []envEntry, exactOnly bool) *envEntry {
 
 func (g *gen) genExp(t *Type, env []envEntry) *Exp {
 	if !g.pct(g.cfg.PLiteral) {
-		if e := g.pickRef(t, env, false); e != nil && !g.pct(25) {
+		if e := g.pickRef(t, env, false); e != nil && (e.fromCall != "" || !g.pct(25)) {
 			return e.exp
 		}
 		if e := g.newInput(t); e != nil {
